@@ -294,30 +294,109 @@ func runFormatNewRoot(c *Ctx) {
 		{name: "options BranchFactor large", bf: 1 << 40, nf: "", wantBF: "opt", wantNF: frozenV115},
 		{name: "options NodeFormat set", bf: 0, nf: frozenV1, wantBF: "16", wantNF: "opt"},
 	}
-	isBF, isNF := isOptField("BranchFactor"), isOptField("NodeFormat")
-	constOf := func(v ssa.Value) constant.Value { return fxConst(v) }
+	_ = isOptField
+	isZeroOptions := func(v ssa.Value) bool { // a fresh, never-written options struct
+		al, ok := v.(*ssa.Alloc)
+		if !ok || al.Referrers() == nil {
+			return false
+		}
+		if pt, ok := al.Type().Underlying().(*types.Pointer); !ok || !ir.IsNamed(pt.Elem(), "CreateRemoteOptions") {
+			return false
+		}
+		fs, whole := fxStructStores(al)
+		return len(fs) == 0 && len(whole) == 0
+	}
 	for _, sc := range scs {
 		sc := sc
+		// phase 1: only the nil test of the options pointer is decided; this
+		// tells which options value (the caller's, or a zero-valued stand-in
+		// installed for nil) a later field read refers to on this path
+		as0 := &fxAssume{decide: func(cond ssa.Value) (bool, bool) {
+			if v, tnn, ok := ir.NilTest(cond); ok && ir.ResolveCell(v) == ssa.Value(opt) {
+				return tnn != sc.nilOpt, true
+			}
+			return false, false
+		}}
+		reach0 := as0.reach(fn.Blocks[0])
+		optKind := func(x ssa.Value) string {
+			kind := ""
+			for _, l := range as0.leaves(ir.ResolveCell(x), reach0) {
+				k := ""
+				switch {
+				case ir.ResolveCell(l) == ssa.Value(opt) && !sc.nilOpt:
+					k = "param"
+				case isZeroOptions(l):
+					k = "zero"
+				}
+				if k == "" || (kind != "" && kind != k) {
+					return ""
+				}
+				kind = k
+			}
+			return kind
+		}
+		optField := func(v ssa.Value) (string, string) {
+			b, path, ok := fxFieldLoad(fxStrip(v))
+			if !ok || b == nil {
+				return "", ""
+			}
+			return path, optKind(b)
+		}
+		isBF := func(v ssa.Value) bool { n, k := optField(v); return n == "BranchFactor" && k == "param" }
+		isNF := func(v ssa.Value) bool { n, k := optField(v); return n == "NodeFormat" && k == "param" }
+		var valueOf func(v ssa.Value) constant.Value
+		valueOf = func(v ssa.Value) constant.Value {
+			if k := fxConst(v); k != nil {
+				return k
+			}
+			if a, ok := lenArg(v); ok {
+				if s := valueOf(a); s != nil && s.Kind() == constant.String {
+					return constant.MakeInt64(int64(len(constant.StringVal(s))))
+				}
+				return nil
+			}
+			switch n, k := optField(v); {
+			case n == "BranchFactor" && k == "param":
+				return constant.MakeInt64(sc.bf)
+			case n == "BranchFactor" && k == "zero":
+				return constant.MakeInt64(0)
+			case n == "NodeFormat" && k == "param":
+				return constant.MakeString(sc.nf)
+			case n == "NodeFormat" && k == "zero":
+				return constant.MakeString("")
+			}
+			return nil
+		}
+		isOptRelated := func(v ssa.Value) bool {
+			if ir.ResolveCell(v) == ssa.Value(opt) || isZeroOptions(v) {
+				return true
+			}
+			if p, ok := v.(*ssa.Phi); ok {
+				for _, e := range p.Edges {
+					if ir.ResolveCell(e) == ssa.Value(opt) {
+						return true
+					}
+				}
+			}
+			return false
+		}
 		as := &fxAssume{
 			decide: func(cond ssa.Value) (bool, bool) {
-				if v, tnn, ok := ir.NilTest(cond); ok && ir.ResolveCell(v) == ssa.Value(opt) {
-					return tnn != sc.nilOpt, true
+				if t, k := as0.decide(cond); k {
+					return t, true
 				}
-				if bin, ok := cond.(*ssa.BinOp); ok && !sc.nilOpt {
-					if t, k := fxCmpConst(bin, isBF, constOf, constant.MakeInt64(sc.bf)); k {
-						return t, true
-					}
-					if t, k := fxCmpConst(bin, isNF, constOf, constant.MakeString(sc.nf)); k {
-						return t, true
-					}
-					isLenNF := func(v ssa.Value) bool { a, ok := lenArg(v); return ok && isNF(a) }
-					if t, k := fxCmpConst(bin, isLenNF, constOf, constant.MakeInt64(int64(len(sc.nf)))); k {
-						return t, true
+				if bin, ok := cond.(*ssa.BinOp); ok {
+					switch bin.Op {
+					case token.EQL, token.NEQ, token.LSS, token.LEQ, token.GTR, token.GEQ:
+						x, y := valueOf(bin.X), valueOf(bin.Y)
+						if x != nil && y != nil && x.Kind() == y.Kind() && (fxConst(bin.X) == nil || fxConst(bin.Y) == nil) {
+							return constant.Compare(x, bin.Op, y), true
+						}
 					}
 				}
 				return false, false
 			},
-			relevant: func(cond ssa.Value) bool { return strings.Contains(ir.Sym(cond), "P:"+opt.Name()) },
+			relevant: func(cond ssa.Value) bool { return mentionsValue(cond, isOptRelated, 0) },
 		}
 		reach := as.reach(fn.Blocks[0])
 		if open := as.open(reach); len(open) > 0 {
@@ -1587,11 +1666,13 @@ func runFormatTrim(c *Ctx) {
 	g := guard[0]
 	bin, ok := g.Cond.(*ssa.BinOp)
 	var counter *ssa.Phi
+	cfn, crecv := fn, ssa.Value(recv) // where the counter lives (a helper, if the counting loop was extracted)
 	if ok && (bin.Op == token.EQL || bin.Op == token.NEQ) {
 		x, y := bin.X, bin.Y
 		if fxConst(x) != nil {
 			x, y = y, x
 		}
+		x, cfn, crecv = resolveCounter(x, fn, recv, 0)
 		if p, isPhi := x.(*ssa.Phi); isPhi && fxIsIntConst(y, 0) {
 			counter = p
 			if (bin.Op == token.EQL) != g.Truth {
@@ -1619,12 +1700,12 @@ func runFormatTrim(c *Ctx) {
 			return false
 		}
 		b, p, ok := fxFieldLoad(ia.X)
-		return ok && p == "Link" && b == ssa.Value(recv)
+		return ok && p == "Link" && b == crecv
 	}
 	okCounter := true
 	for i, e := range counter.Edges {
 		pred := counter.Block().Preds[i]
-		epos := c.P.Pos(fn.Pos())
+		epos := c.P.Pos(cfn.Pos())
 		if len(pred.Instrs) > 0 {
 			epos = c.P.InstrPos(pred.Instrs[len(pred.Instrs)-1])
 		}
@@ -1632,30 +1713,67 @@ func runFormatTrim(c *Ctx) {
 		case !counter.Block().Dominates(pred):
 			if !fxIsIntConst(e, 0) {
 				okCounter = false
-				c.Violation(fn, epos, "linkCount start", "the link counter starts at "+ir.Sym(e)+", not 0")
+				c.Violation(cfn, epos, "linkCount start", "the link counter starts at "+ir.Sym(e)+", not 0")
 			}
 		case e == ssa.Value(counter):
 			// unincremented back edge: only on the nil side
 			if !edgeHasNil(pred, counter.Block(), linkElem, true) {
 				okCounter = false
-				c.Violation(fn, epos, "linkCount++", "a loop iteration leaves the link counter unchanged although the link is not known to be nil")
+				c.Violation(cfn, epos, "linkCount++", "a loop iteration leaves the link counter unchanged although the link is not known to be nil")
 			}
 		default:
 			inc, ok := e.(*ssa.BinOp)
 			if !ok || inc.Op != token.ADD || !((inc.X == ssa.Value(counter) && fxIsIntConst(inc.Y, 1)) || (inc.Y == ssa.Value(counter) && fxIsIntConst(inc.X, 1))) {
 				okCounter = false
-				c.Undecided(fn, epos, "linkCount++", "counter update "+ir.Sym(e)+" not recognised")
+				c.Undecided(cfn, epos, "linkCount++", "counter update "+ir.Sym(e)+" not recognised")
 				continue
 			}
 			if !blockHasNil(inc.Block(), linkElem, false) {
 				okCounter = false
-				c.Violation(fn, c.P.InstrPos(inc), "linkCount++", "the link counter is incremented for a link that is not known to be non-nil (nil links are counted: the link list is kept where the published writer drops it)")
+				c.Violation(cfn, c.P.InstrPos(inc), "linkCount++", "the link counter is incremented for a link that is not known to be non-nil (nil links are counted: the link list is kept where the published writer drops it)")
 			}
 		}
 	}
 	if okCounter {
 		c.OK(c.P.InstrPos(counter), "linkCount", "starts at 0, +1 exactly for non-nil node.Link[i]", false)
 	}
+}
+
+// resolveCounter follows a counter that is result #k of a static in-repo
+// helper called with the node (depth ≤ 2) to the value the helper returns,
+// with the helper's parameter standing for the node.
+func resolveCounter(x ssa.Value, fn *ssa.Function, recv ssa.Value, depth int) (ssa.Value, *ssa.Function, ssa.Value) {
+	call, idx := fxCallOf(x)
+	if call == nil || depth >= 2 {
+		return x, fn, recv
+	}
+	callee := call.Call.StaticCallee()
+	if callee == nil || !fxOwnFunc(callee) {
+		return x, fn, recv
+	}
+	var nodeParam ssa.Value
+	for i, a := range call.Call.Args {
+		if ir.ResolveCell(a) == recv && i < len(callee.Params) {
+			nodeParam = callee.Params[i]
+		}
+	}
+	if nodeParam == nil {
+		return x, fn, recv
+	}
+	var val ssa.Value
+	for _, r := range fxSuccessReturns(callee) {
+		if idx >= len(r.Results) {
+			return x, fn, recv
+		}
+		if val != nil && val != r.Results[idx] {
+			return x, fn, recv
+		}
+		val = r.Results[idx]
+	}
+	if val == nil {
+		return x, fn, recv
+	}
+	return resolveCounter(val, callee, nodeParam, depth+1)
 }
 
 // blockHasNil: on entry to b a dominating branch established that a value
